@@ -539,11 +539,11 @@ theorem keep_writeResponse (r : Resp) (hnr : NoClear ctx s) :
   have e : (writeResponse ctx r s).1 =
       (fun s1 : St => ({ (recycleContinueConn ctx s1.continueConn s1) with continueConn := none } : St))
       (match s.continueConn with
-       | some c => if r == .res || r == .ok then { s with w := streamRest ctx c s.w } else s
+       | some c => if r == .res || r == .ok then { s with w := closeGivenUp c (streamRest ctx c s.w) } else s
        | none => s) := rfl
   rw [e]
   generalize hs1 : (match s.continueConn with
-       | some c => if r == Resp.res || r == Resp.ok then { s with w := streamRest ctx c s.w } else s
+       | some c => if r == Resp.res || r == Resp.ok then { s with w := closeGivenUp c (streamRest ctx c s.w) } else s
        | none => s) = s1
   have hsame : s1.txConns = s.txConns ∧ s1.ksConns = s.ksConns ∧ s1.nsCur = s.nsCur ∧ s1.nsOld = s.nsOld ∧
       s1.nsCtx = s.nsCtx ∧ s1.closed = s.closed ∧ s1.isInTransaction = s.isInTransaction := by
